@@ -60,10 +60,10 @@ func init() {
 		ID:    "C01",
 		Level: "exploration",
 		Rule: "case = (mapping kind x alpha in [1e-6,0.99] x index-offset regime, store in {dense,sparse,paginated}, sign pattern, n in [1,2000] values drawn from bin edges +-k ulps, binade boundaries, range ends, sub-minimum magnitudes, duplicates, clusters) added one at a time; " +
-			"queries = 0, 1, every k/(n-1) and its float neighbours (all k for n<=64, else 64 sampled), random q, single and batch; oracle = answer within (alpha+64u) of the order statistic at floor or ceil of the exact q*(n-1) (big.Rat), q=0/1 in the bin of the true extreme. " +
+			"queries = 0, 1, every k/(n-1) and its float neighbours (all k for n<=64, else 64 sampled), random q, single and batch, asked after the whole input and (half of the cases) also at 1-2 checkpoints inside it; oracle = answer within (alpha+64u) of the order statistic at floor or ceil of the exact q*(n-1) (big.Rat), q=0/1 in the bin of the true extreme. " +
 			"Non-trivial = n>=3, >=1 value within 8 ulps of a bin edge or at a range end, >=1 q at an integer rank; distinct = hash of (mapping, store, pattern, values).",
 		Cases:     core.Scale(60000, 1500000),
-		Mandatory: []string{"oracle.quantile_checks", "query.at_integer_rank", "value.edge", "value.end", "value.zero_bucket", "oracle.extreme_bin_checks"},
+		Mandatory: []string{"oracle.quantile_checks", "query.at_integer_rank", "value.edge", "value.end", "value.zero_bucket", "oracle.extreme_bin_checks", "query.at_checkpoint_inside_input"},
 		Assumptions: []string{
 			"floating-point slack 64*u(v) (DESIGN.md §3.6): defects smaller than ~1e-11 relative are invisible",
 			"|v| == MinIndexableValue exactly may be treated as zero or as indexed",
@@ -105,7 +105,84 @@ func runC01(c *core.Ctx) {
 	c.SigS(sp.String())
 	c.SigS(pattern)
 	s := mon.NewSketch(false, m.M, sp)
-	for _, v := range vs.vals {
+	c.Count("cases."+m.KindName()+"."+sp.KindName()+"."+alphaDecade(m.Alpha), 1)
+	// queries may come at any time: up to two checkpoints inside the input, then the full input
+	checkpoints := map[int]bool{}
+	if len(vs.vals) >= 4 && r.P(0.5) {
+		for i := r.Range(1, 2); i > 0; i-- {
+			checkpoints[r.Range(1, len(vs.vals)-1)] = true
+		}
+	}
+	atInt, nn, nqs := 0, 0, 0
+	// checkQuantiles queries the sketch holding vals[:k] and compares with the order statistics of that prefix
+	checkQuantiles := func(k int, light bool) bool {
+		sorted := normalisedSorted(m, vs.vals[:k])
+		nn = len(sorted)
+		qs, ai := quantileGrid(r, nn)
+		if light && len(qs) > 24 {
+			qs = qs[:24]
+			ai = 0
+			c.Count("query.at_checkpoint_inside_input", 1)
+		}
+		atInt += ai
+		nqs += len(qs)
+		c.Count("query.at_integer_rank", ai)
+		var batch []float64
+		var berr error
+		if c.Guard("GetValuesAtQuantiles", func() { batch, berr = s.P.GetValuesAtQuantiles(qs) }) {
+			return false
+		}
+		if berr != nil || len(batch) != len(qs) {
+			c.Failf("batch.error", "GetValuesAtQuantiles on valid quantiles returned err=%v len=%d", berr, len(batch))
+			return false
+		}
+		for i, q := range qs {
+			var y float64
+			var err error
+			if c.Guard("GetValueAtQuantile", func() { y, err = s.P.GetValueAtQuantile(q) }) {
+				return false
+			}
+			if err != nil {
+				c.Failf("quantile.error", "GetValueAtQuantile(%v) on a non-empty sketch returned %v", q, err)
+				return false
+			}
+			if !(batch[i] == y) {
+				c.Failf("batch.differs", "batch answer %v differs from single answer %v at q=%v", batch[i], y, q)
+			}
+			fl, ce := exactRank(q, int64(nn-1))
+			xlo, xhi := sorted[fl], sorted[ce]
+			c.Count("oracle.quantile_checks", 1)
+			if !(m.Matches(y, xlo) || m.Matches(y, xhi)) {
+				c.Failf("accuracy", "after %d additions, q=%v: answer %v not within alpha=%g of x[%d]=%v nor x[%d]=%v (rel.err %g / %g, slack %g) mapping %s store %s",
+					nn, q, y, m.M.RelativeAccuracy(), fl, xlo, ce, xhi, relErr(y, xlo), relErr(y, xhi), m.Slack(xlo), m.Desc, sp)
+				return false
+			}
+			if y != 0 {
+				best := math.Inf(1)
+				for _, x := range []float64{xlo, xhi} {
+					if x != 0 && m.Matches(y, x) {
+						if e := (relErr(y, x) - m.M.RelativeAccuracy()) / m.U(x); e < best {
+							best = e
+						}
+					}
+				}
+				c.Max("accuracy_excess_over_alpha_in_units_of_u", best)
+			}
+			if q == 0 || q == 1 {
+				x := sorted[0]
+				if q == 1 {
+					x = sorted[nn-1]
+				}
+				c.Count("oracle.extreme_bin_checks", 1)
+				if !inSameBin(m, y, x) {
+					c.Failf("extreme_bin", "q=%v: answer %v does not lie in the bin of the true extreme %v (representative %v) mapping %s store %s",
+						q, y, x, math.Copysign(m.M.Value(m.M.Index(math.Abs(x))), x), m.Desc, sp)
+				}
+			}
+		}
+		return true
+	}
+	for i, v := range vs.vals {
 		c.SigF(v)
 		var err error
 		if c.Guard("Add", func() { err = s.P.Add(v) }) {
@@ -115,72 +192,22 @@ func runC01(c *core.Ctx) {
 			c.Failf("Add.rejected", "Add(%v) of a trackable value returned %v (min %v max %v)", v, err, m.Min, m.Max)
 			return
 		}
+		if checkpoints[i+1] {
+			c.Logf("checkpoint: queries after %d additions", i+1)
+			if !checkQuantiles(i+1, true) {
+				return
+			}
+		}
 	}
 	if c.TraceOn {
 		c.Logf("values: %v", trunc(vs.vals, 40))
 	}
-	sorted := normalisedSorted(m, vs.vals)
-	nn := len(sorted)
-	qs, atInt := quantileGrid(r, nn)
-	c.Count("query.at_integer_rank", atInt)
-	c.Count("cases."+m.KindName()+"."+sp.KindName()+"."+alphaDecade(m.Alpha), 1)
-
-	var batch []float64
-	var berr error
-	if c.Guard("GetValuesAtQuantiles", func() { batch, berr = s.P.GetValuesAtQuantiles(qs) }) {
+	if !checkQuantiles(len(vs.vals), false) {
 		return
-	}
-	if berr != nil || len(batch) != len(qs) {
-		c.Failf("batch.error", "GetValuesAtQuantiles on valid quantiles returned err=%v len=%d", berr, len(batch))
-		return
-	}
-	for i, q := range qs {
-		var y float64
-		var err error
-		if c.Guard("GetValueAtQuantile", func() { y, err = s.P.GetValueAtQuantile(q) }) {
-			return
-		}
-		if err != nil {
-			c.Failf("quantile.error", "GetValueAtQuantile(%v) on a non-empty sketch returned %v", q, err)
-			return
-		}
-		if !(batch[i] == y) {
-			c.Failf("batch.differs", "batch answer %v differs from single answer %v at q=%v", batch[i], y, q)
-		}
-		fl, ce := exactRank(q, int64(nn-1))
-		xlo, xhi := sorted[fl], sorted[ce]
-		c.Count("oracle.quantile_checks", 1)
-		if !(m.Matches(y, xlo) || m.Matches(y, xhi)) {
-			c.Failf("accuracy", "q=%v n=%d: answer %v not within alpha=%g of x[%d]=%v nor x[%d]=%v (rel.err %g / %g, slack %g) mapping %s store %s",
-				q, nn, y, m.M.RelativeAccuracy(), fl, xlo, ce, xhi, relErr(y, xlo), relErr(y, xhi), m.Slack(xlo), m.Desc, sp)
-			return
-		}
-		if y != 0 {
-			best := math.Inf(1)
-			for _, x := range []float64{xlo, xhi} {
-				if x != 0 && m.Matches(y, x) {
-					if e := (relErr(y, x) - m.M.RelativeAccuracy()) / m.U(x); e < best {
-						best = e
-					}
-				}
-			}
-			c.Max("accuracy_excess_over_alpha_in_units_of_u", best)
-		}
-		if q == 0 || q == 1 {
-			x := sorted[0]
-			if q == 1 {
-				x = sorted[nn-1]
-			}
-			c.Count("oracle.extreme_bin_checks", 1)
-			if !inSameBin(m, y, x) {
-				c.Failf("extreme_bin", "q=%v: answer %v is not the representative of the bin of the true extreme %v (expected %v) mapping %s store %s",
-					q, y, x, math.Copysign(m.M.Value(m.M.Index(math.Abs(x))), x), m.Desc, sp)
-			}
-		}
 	}
 	if nn >= 3 && (vs.classes["edge"] > 0 || vs.classes["end"] > 0) && atInt > 0 {
 		c.NonTrivial()
-		c.Sample(map[string]interface{}{"mapping": m.Desc, "store": sp.String(), "pattern": pattern, "n": nn, "first_values": trunc(vs.vals, 6), "queries": len(qs)})
+		c.Sample(map[string]interface{}{"mapping": m.Desc, "store": sp.String(), "pattern": pattern, "n": nn, "first_values": trunc(vs.vals, 6), "queries": nqs, "checkpoints_inside_input": len(checkpoints)})
 	}
 }
 
